@@ -212,6 +212,7 @@ async def drive_h1(env: Any, case: Dict[str, Any]) -> Any:
             conn.resume_reading()
         await env.settle(100.0)
     conn.rx_before_eof = len(conn.received())  # a response is owed without the client hanging up
+    conn.closed_before_eof = conn.server_gone  # ... and so is the close that delimits a body
     conn.eof()
     await env.settle(100.0)
     return conn
@@ -387,8 +388,11 @@ def judge_h1(case: Dict[str, Any], obs: Any) -> None:
                             f"{spec['status']})", backend=be)
         if r.trailers:
             raise Violation("trailers_on_http1", f"response {i}: {r.trailers}", backend=be)
-        if r.framing == "close" and not conn.server_gone:
-            raise Violation("close_delimited_not_closed", f"response {i}", backend=be)
+        if r.framing == "close" and not getattr(conn, "closed_before_eof", conn.server_gone):
+            # the end of the connection is the end of this body: the client learns it from the
+            # server's close, not from its own
+            raise Violation("close_delimited_not_closed", f"response {i}: still open 100 s after "
+                            f"the response, until the client itself hung up", backend=be)
         # second opinion (harness consistency): h11's client must see the same thing
         if i < len(second) and "error" not in second[i]:
             s = second[i]
